@@ -137,6 +137,11 @@ func (q *x) shorter(n int) []int {
 		}
 		return out
 	}
+	return q.sampled(n)
+}
+
+// sampled is the quick tier's spread of lengths below n.
+func (q *x) sampled(n int) []int {
 	out := []int{0, 1, n - 1, n / 2}
 	for k := 0; k < 4; k++ {
 		out = append(out, q.r.IntN(n))
